@@ -26,6 +26,17 @@ type Case struct {
 	R      progen.Rendering `json:"r"`
 	Seed   uint64           `json:"seed"`
 	Checks int              `json:"checks"`
+	// Replace: root-level replace-type rules mapping non-nillable types to nillable ones (and
+	// back); the driver works on the signatures the mock really has.
+	Replace bool `json:"replace,omitempty"`
+}
+
+// replaceRules: (helper package key, type) -> (helper package key, type)
+var replaceRules = [][4]string{
+	{"alpha", "T", "alpha", "I"},      // struct -> interface
+	{"alpha", "MyInt", "alpha", "Fn"}, // int -> func
+	{"alpha", "I", "alphb", "T"},      // interface -> struct
+	{"alphb", "Cmp", "alpha", "I"},    // string -> interface
 }
 
 var testifyAPI = map[string]bool{"EXPECT": true, "Mock": true, "On": true, "Called": true, "Test": true, "TestData": true,
@@ -43,7 +54,18 @@ func gen(t *rapid.T) Case {
 		MethodFilter: func(n string) bool { return testifyAPI[n] }}
 	mod := progen.Gen(t, o)
 	r.GenIfaceData(t, &mod)
-	return Case{Mod: mod, R: r, Seed: rapid.Uint64Range(1, 1<<62).Draw(t, "innerseed"), Checks: vh.Pick(150, 400)}
+	replace := rapid.IntRange(0, 3).Draw(t, "replace-type") == 0
+	if replace {
+		// an interface whose parameters and results are exactly the types the rules replace
+		T, MyInt, I, Cmp := progen.N("alpha", "T"), progen.N("alpha", "MyInt"), progen.N("alpha", "I"), progen.N("alphb", "Cmp")
+		mod.Pkgs[0].Ifaces = append(mod.Pkgs[0].Ifaces, progen.Iface{Name: "Replaced", Methods: []progen.Meth{
+			{Name: "GetT", Sig: progen.Sig{Results: []progen.Var{{T: T}}}},
+			{Name: "GetBoth", Sig: progen.Sig{Params: []progen.Var{{Name: "x", T: MyInt}}, Results: []progen.Var{{T: T}, {T: progen.B("error")}}}},
+			{Name: "Take", Sig: progen.Sig{Params: []progen.Var{{Name: "c", T: Cmp}, {Name: "i", T: I}}, Results: []progen.Var{{T: MyInt}}}},
+			{Name: "Many", Sig: progen.Sig{Params: []progen.Var{{Name: "ts", T: T}}, Variadic: true, Results: []progen.Var{{T: I}, {T: Cmp}}}},
+		}})
+	}
+	return Case{Replace: replace, Mod: mod, R: r, Seed: rapid.Uint64Range(1, 1<<62).Draw(t, "innerseed"), Checks: vh.Pick(150, 400)}
 }
 
 var mockFileErr = regexp.MustCompile(`(?m)^(\.\./)?mocks/[^:\s]*\.go:\d+`)
@@ -58,7 +80,25 @@ func unrollKey(r progen.Rendering) string {
 
 func run(c Case) *vh.Violation {
 	cl := []string{unrollKey(c.R)}
-	dir, _ := progen.Materialize(&c.Mod, c.R, nil, nil)
+	var extraRoot map[string]any
+	extraFiles := map[string]string{}
+	if c.Replace {
+		cl = append(cl, "replace-type")
+		rt := map[string]any{}
+		for _, r := range replaceRules {
+			from := c.Mod.ImportPath(r[0])
+			if rt[from] == nil {
+				rt[from] = map[string]any{}
+			}
+			rt[from].(map[string]any)[r[1]] = map[string]any{"pkg-path": c.Mod.ImportPath(r[2]), "type-name": r[3]}
+		}
+		extraRoot = map[string]any{"replace-type": rt}
+		for _, k := range []string{"alpha", "alphb"} {
+			f, src := progen.HelperFile(k)
+			extraFiles[f] = src
+		}
+	}
+	dir, _ := progen.Materialize(&c.Mod, c.R, extraRoot, extraFiles)
 	defer vh.RemoveAll(dir)
 	res := vh.Mockery(dir, nil)
 	if res.TimedOut {
